@@ -10,8 +10,14 @@ import (
 )
 
 // sceneCall: a call-service message with arbitrary fields that passes stateless validation.
+var callHuge bool
+
 func sceneCall() {
 	k, ctx := vf.Env()
+	if callHuge { // the fee cap is free up to the 255 bits of an sdk.Int; the state holds what a chain can hold
+		hugeMode = true
+		vf.CheckOverflow()
+	}
 	ctx, H, _ := Block(ctx)
 	defined := vf.Bool("defined")
 	if defined {
@@ -42,7 +48,7 @@ func sceneCall() {
 	vf.Assume(vf.All(timeout < maxH, freq < uint64(maxH), total < maxH))
 	msg := types.NewMsgCallService(Svc, provs, consumer, input, feeCap, timeout, super, repeated, freq, total)
 	vf.Assume(msg.ValidateBasic() == nil)
-	balC0 := vf.Amount("balConsumer")
+	balC0 := inState(vf.Amount("balConsumer"))
 	vf.SetBalance(consumer, balC0)
 	esc0 := vf.ModuleBalance(types.RequestAccName)
 	// a bystander context with a different id
